@@ -1,6 +1,7 @@
 package rules
 
 import (
+	"sort"
 	"fmt"
 	"go/token"
 	"go/types"
@@ -14,7 +15,7 @@ import (
 
 func init() {
 	Registry["C13"] = Set{
-		Explanation: "Decides structural clauses of network FIFO on every frame writer: F1 the link selector handed to send and the receive-queue selector stored in the order byte are pure functions of the sender/receiver identifier (no counter, clock or random leaf); F2 on every path on which KeepNetworkOrder is true (and in writers without that option) the value range of both selectors excludes 0, the round-robin sentinel tested in send and serve — decided with an interval domain over %, &, +, >>, conversions to narrower unsigned types, and one level of helper inlining; a constant 0 is accepted only in the frozen list of writers that have no ordered stream (termination notices, replies addressed by name/event); F3 one worker per receive queue: the producer pushes, then tries the queue lock, and starts the worker only on the lock's success edge with the same queue; the queue index is the order byte modulo the queue count whenever the byte is non-zero; F4 the modulus applied to the link selector for ordered traffic must not change during the connection's life (today it is len(c.pool), which grows while links are joined: known finding F-V). Added while probing: F5 the compression envelope copies the receive-queue selector (byte 6) of the frame it wraps; F6 every options literal a process or meta process builds for a Route{Send,Call}* call sets KeepNetworkOrder from the process's keeporder field. F6 also: when the options value is replaced on some path by the result of a helper, that helper's literal carries the keep-order setting too.",
+		Explanation: "Decides structural clauses of network FIFO on every frame writer: F1 the link selector handed to send and the receive-queue selector stored in the order byte are pure functions of the sender/receiver identifier (no counter, clock or random leaf); F2 on every path on which KeepNetworkOrder is true (and in writers without that option) the value range of both selectors excludes 0, the round-robin sentinel tested in send and serve — decided with an interval domain over %, &, +, >>, conversions to narrower unsigned types, and one level of helper inlining; a constant 0 is accepted only in the frozen list of writers that have no ordered stream (termination notices, replies addressed by name/event); F3 one worker per receive queue: the producer pushes, then tries the queue lock, and starts the worker only on the lock's success edge with the same queue; the queue index is the order byte modulo the queue count whenever the byte is non-zero; F4 the modulus applied to the link selector for ordered traffic must not change during the connection's life (today it is len(c.pool), which grows while links are joined: known finding F-V). Added while probing: F5 the compression envelope copies the receive-queue selector (byte 6) of the frame it wraps; F6 every options literal a process or meta process builds for a Route{Send,Call}* call sets KeepNetworkOrder from the process's keeporder field. F6 also: when the options value is replaced on some path by the result of a helper, that helper's literal carries the keep-order setting too. F7 the receive-queue selector of the six message-carrying writers is derived from the same end of the pair (the sender) in every addressing mode.",
 		NotDecided: []string{
 			"relative delay of pooled TCP links",
 			"behaviour after a link is lost and re-dialled",
@@ -29,7 +30,7 @@ func init() {
 var c13ZeroAllowed = map[string]string{
 	"SendTerminatePID":       "termination notice of a target, addressed to the peer node as a whole",
 	"SendTerminateProcessID": "termination notice of a name, addressed to the peer node as a whole",
-	"SendTerminateEvent":     "termination notice of an event, addressed to the peer node as a whole",
+	"SendTerminateEvent":     "termination notice of an event, addressed to the peer node as a whole (that it overtakes the publications is judged by C18.V8: open finding F-BI)",
 	"SendTerminateAlias":     "termination notice of an alias, addressed to the peer node as a whole",
 	"routeMessage":           "replies to link/monitor/spawn requests whose target is a name/event (no identifier to derive an order from); the peer-side selector is still derived from the requester's id",
 	"SendEvent":              "receive-queue selector of an event publication: fan-out to all subscribers on the peer, no single receiver id",
@@ -163,6 +164,7 @@ func runC13(p *load.Program, r *core.Report) {
 			}
 		}
 	}
+	c13SelectorAgreement(p, r, isWriter)
 	c13Sentinel(p, r, sendFn)
 	c13Worker(p, r)
 	c13Modulus(p, r, sendFn)
@@ -591,3 +593,108 @@ func fieldOwnerBase(v ssa.Value) ssa.Value {
 }
 
 var _ = load.Module
+
+// c13SelectorAgreement: F7 — the order between two processes is kept per receive queue of the peer, so
+// every frame that carries a message or request from process A to process B has to select the SAME
+// queue, however B is addressed (pid, registered name, alias). The selector written into byte 6 is
+// derived from the sender in the name-addressed writers (the receiver's id is not known there); the
+// pid/alias-addressed writers must derive it from the sender too. One obligation for the family.
+func c13SelectorAgreement(p *load.Program, r *core.Report, isWriter map[string]bool) {
+	c13SelectorAgreementAs(p, r, "C13.F7 receive-queue-selector-agrees-across-addressing-modes")
+}
+
+func c13SelectorAgreementAs(p *load.Program, r *core.Report, rule string) {
+	r.Floor(rule, 1)
+	carrying := map[string]bool{"SendPID": true, "SendProcessID": true, "SendAlias": true, "CallPID": true, "CallProcessID": true, "CallAlias": true}
+	roots := func(v ssa.Value, f *ssa.Function) map[int]bool {
+		out := map[int]bool{}
+		seen := map[ssa.Value]bool{}
+		var w func(x ssa.Value, d int)
+		w = func(x ssa.Value, d int) {
+			if x == nil || seen[x] || d > 12 {
+				return
+			}
+			seen[x] = true
+			if pa, ok := x.(*ssa.Parameter); ok {
+				for i, q := range f.Params {
+					if q == pa {
+						out[i] = true
+					}
+				}
+				return
+			}
+			if al, ok := x.(*ssa.Alloc); ok {
+				for _, rf := range *al.Referrers() {
+					if st, ok := rf.(*ssa.Store); ok && st.Addr == ssa.Value(al) {
+						w(st.Val, d+1)
+					}
+				}
+				return
+			}
+			if in, ok := x.(ssa.Instruction); ok {
+				for _, op := range in.Operands(nil) {
+					if *op != nil {
+						w(*op, d+1)
+					}
+				}
+			}
+		}
+		w(v, 0)
+		return out
+	}
+	bySource := map[string][]string{}
+	var pos string
+	for _, f := range funcsOfPkgs(p, "net/proto") {
+		if f.Parent() != nil || !carrying[f.Name()] {
+			continue
+		}
+		eachInstr(f, func(in ssa.Instruction) {
+			st, ok := in.(*ssa.Store)
+			if !ok {
+				return
+			}
+			ia, ok := st.Addr.(*ssa.IndexAddr)
+			if !ok {
+				return
+			}
+			if idx, okc := constInt(ia.Index); !okc || idx != 6 {
+				return
+			}
+			if _, path, okp := fieldPath(ia.X); !okp || len(path) == 0 || path[len(path)-1] != "B" {
+				return
+			}
+			rs := roots(st.Val, f)
+			// f.Params: [receiver, from, to, options, message]
+			src := "neither"
+			switch {
+			case rs[1] && !rs[2]:
+				src = "sender"
+			case rs[2] && !rs[1]:
+				src = "receiver"
+			case rs[1] && rs[2]:
+				src = "both"
+			}
+			bySource[src] = append(bySource[src], f.Name())
+			if pos == "" || src == "receiver" {
+				pos = p.Pos(in.Pos())
+			}
+		})
+	}
+	key := strings.SplitN(rule, " ", 2)[0] + "|selector-source"
+	inst := "the receive-queue selector of every message-carrying frame is derived from the same end of the pair in all addressing modes"
+	var parts []string
+	for _, k := range []string{"sender", "receiver", "both", "neither"} {
+		if len(bySource[k]) > 0 {
+			sort.Strings(bySource[k])
+			parts = append(parts, k+": "+strings.Join(bySource[k], ", "))
+		}
+	}
+	switch {
+	case len(bySource["sender"])+len(bySource["receiver"])+len(bySource["both"])+len(bySource["neither"]) < 6:
+		r.Unk(rule, key, "", pos, inst, "fewer than the six message-carrying writers were found: "+strings.Join(parts, "; "))
+	case len(bySource["receiver"]) > 0 && len(bySource["sender"]) > 0 || len(bySource["both"]) > 0 || len(bySource["neither"]) > 0:
+		r.Bad(rule, key, "net/proto frame writers", pos, inst, strings.Join(parts, "; ")+" — a message sent by name and the next one sent by pid (or alias) between the same two processes land in different receive queues of the peer, each drained by its own worker: they can be delivered in the reverse order")
+	default:
+		r.OK(rule, key, "net/proto frame writers", pos, inst, strings.Join(parts, "; "))
+	}
+}
